@@ -221,11 +221,12 @@ CHECKS = {
         "title": "Replicas computing the same blocks reach the same state hash",
         "level": "exploration",
         "technique": "property-based differential testing (rapid): generated ABCI histories executed on two independently constructed applications (thorough: plus a replica in a second OS process), comparing app hashes, transaction results and events at every height",
-        "tests": [T("TestC11", 25, 120, qshards=4, timeout=900)],
-        "rule": "replicas per history: B fresh app in the same process; R process restarts (new app instance over the same database) after 1-3 drawn blocks; S also serves CheckTx / Simulate / gRPC queries for the coming transactions between blocks; C second OS process (1-4 histories per shard). cases = generated genesis (minter configuration, sub-distributor configuration, 1-4 vesting types, 0-3 genesis pools) + 5-25 blocks with dt in {1s,5s,11s,1min,1d,30d}, each carrying 0-4 signed SIGN_MODE_DIRECT transactions built against the live state: create pool, pool send, withdraw, direct vesting-account creation, split / move / move-by-denoms signed by previously created vesting accounts, MsgDelegate from vesting accounts, bank sends into distributor sources, cfesignature messages (unroutable on this tree), governance proposals carrying minter / distributor / vesting parameter updates followed by a validator-delegator yes vote and execution after the 10 s voting period, user-signed parameter updates, garbage bytes and wrong-sequence transactions. "
+        "tests": [T("TestC11", 25, 120, qshards=4, timeout=900), T("TestC11Upgrade", 300, 400, qshards=1)],
+        "rule": "TestC11Upgrade: generated pre-upgrade states (the C16 generator) are upgraded to v1.2.0 twice, as two replicas execute the upgrade block (keeper-level steps or the real upgrade handler), and the cfevesting, cfeminter, cfedistributor, bank, auth, params and upgrade stores must be byte-identical; non-trivial = the pool split applied or at least two owner records were migrated. TestC11: replicas per history: B fresh app in the same process; R process restarts (new app instance over the same database) after 1-3 drawn blocks; S also serves CheckTx / Simulate / gRPC queries for the coming transactions between blocks; C second OS process (1-4 histories per shard). cases = generated genesis (minter configuration, sub-distributor configuration, 1-4 vesting types, 0-3 genesis pools) + 5-25 blocks with dt in {1s,5s,11s,1min,1d,30d}, each carrying 0-4 signed SIGN_MODE_DIRECT transactions built against the live state: create pool, pool send, withdraw, direct vesting-account creation, split / move / move-by-denoms signed by previously created vesting accounts, MsgDelegate from vesting accounts, bank sends into distributor sources, cfesignature messages (unroutable on this tree), governance proposals carrying minter / distributor / vesting parameter updates followed by a validator-delegator yes vote and execution after the 10 s voting period, user-signed parameter updates, garbage bytes and wrong-sequence transactions. "
                 "Replica B is a separately constructed app fed the identical genesis bytes and transaction bytes. Compared per height: Commit app hash, every ResponseDeliverTx {code, codespace, data, gas used/wanted, events}, BeginBlock and EndBlock events, validator updates. Log strings are not compared (ABCI declares them non-deterministic), differences are counted. Non-trivial = at least one accepted vesting transaction and one rejected transaction. Distinct = SHA-256 of (genesis, history).",
-        "min_nontrivial_fraction": 0.5,
-        "min_class_fraction": {"gov_proposal_executed": 0.2, "vesting_tx_accepted": 0.5, "tx_rejected": 0.5},
+        # fractions are taken over the cases of both tests; TestC11 contributes about a quarter of them
+        "min_nontrivial_fraction": 0.3,
+        "min_class_fraction": {"gov_proposal_executed": 0.04, "vesting_tx_accepted": 0.1, "tx_rejected": 0.1, "split_applied": 0.05, "through_upgrade_handler": 0.2},
         "level_text": "Two replicas in one process detect nondeterminism that depends on Go map iteration order, pointer values or wall-clock reads in state-changing code; the thorough tier adds a replica in a second OS process (fresh hash seeds, ASLR). It cannot detect divergence that needs another architecture or Go release.",
         "level_note": "Block gas limit is unlimited in the harness consensus parameters (see abciConsensusParams).",
         "design_ref": "DESIGN.md §5 C11",
